@@ -39,7 +39,8 @@ class TlcResult:
         self.no_error = "Model checking completed. No error has been found." in out
         self.violated = re.findall(r"Error: Invariant ([A-Za-z0-9_]+) is violated", out)
         self.violated += re.findall(r"Error: Action property ([A-Za-z0-9_]+) is violated", out)
-        if "Temporal properties were violated" in out:
+        self.violated += re.findall(r"Error: Temporal property ([A-Za-z0-9_]+) was violated", out)
+        if "Temporal properties were violated" in out and not self.violated:
             self.violated.append("<temporal>")
         self.deadlock = "Error: Deadlock reached" in out
         self.crashed = (not self.no_error) and not self.violated and not self.deadlock and rc != 0
@@ -296,7 +297,7 @@ class Ctx:
         with open(os.path.join(d, "%s_%s" % (self.pid, name)), "w") as fh:
             fh.write(r.out if hasattr(r, "out") else str(r))
 
-    def finish(self, level="model_checking"):
+    def finish(self, level="model_checking", write_evidence=True):
         wall = time.time() - self.t0
         for key, h in sorted(self.known_hit.items()):
             print("KNOWN-FINDING: property=%s %s [%s; %d occurrence(s)]" % (self.pid, h["what"], key, h["count"]))
@@ -330,9 +331,10 @@ class Ctx:
         cov.update(self.extra)
         ev = {"property_id": self.pid, "tier": self.tier, "seed": int(self.seed), "level": level, "coverage": cov,
               "assumptions": self.assumptions, "wall_s": round(wall, 2), "violations": len(self.violations)}
-        os.makedirs(os.path.join(ROOT, "evidence"), exist_ok=True)
-        with open(os.path.join(ROOT, "evidence", self.pid + ".json"), "w") as fh:
-            json.dump(ev, fh, indent=1, default=str)
+        if write_evidence:
+            os.makedirs(os.path.join(ROOT, "evidence"), exist_ok=True)
+            with open(os.path.join(ROOT, "evidence", self.pid + ".json"), "w") as fh:
+                json.dump(ev, fh, indent=1, default=str)
         print("SUMMARY property=%s tier=%s seed=%d states=%d transitions=%d traces=%d evaluations=%d violations=%d known=%d drift=%d wall=%.1fs"
               % (self.pid, self.tier, self.seed, self.states, self.transitions, self.traces, self.evaluations,
                  len(self.violations), len(self.known_hit), len(self.drift), wall))
